@@ -28,7 +28,7 @@ CFG = {
         "uint is 64 bit (Go on amd64/arm64) in the Dynamic list model",
         "the interpreter of the regenerated bodies (Model/DynExec.lean: parser of the flat statement lines, uint typing rule, what it keeps of surfaces - index, row, height; columns, cells and the child of the cursor surface are not represented) is the semantics of the Go subset the theorems draw_body_eq_model / insert_children_body_eq_model / handle_event_body_eq_model / capture_event_body_eq_model speak about; it is validated against the real code by the correspondence run (every dl op is run through it)",
         "the *_body_eq_model theorems go through C19Tie.skeleton_* (regenerated body = the expected copy in Lemmas/DynSkelExpected.lean) and Lemmas/DynTrees.parse_* (kernel-evaluated parser): a change of list.go makes skeleton_* fail rather than re-proving the equality for the new body",
-        "the interpreter of the widgets' regenerated bodies (Model/WidExec.lean: int fields and locals, built-in min/max - justified by minmax_body_eq_model -, Go's truncating division, characters/cells as bytes+width, a style as its attribute, the pager's line pointers as value plus a 'shared' flag instead of a heap (appending to a shared line is stuck), the window with clipped SetCell/Println, range loops over snapshots of the collection, the call of Layout with fresh locals) is the semantics of the Go subset the theorems of Props/C19Wid.lean speak about; validated against the real code by the correspondence run (every sl/pg/sb op is run through it); New and line.append are pinned syntactically only",
+        "the interpreter of the widgets' regenerated bodies (Model/WidExec.lean: int fields and locals, built-in min/max - justified by minmax_body_eq_model -, Go's truncating division, characters/cells as bytes+width, a style as its attribute, the pager's line pointers with exact aliasing for the single pointer local (the positions of m.lines holding the same object are tracked and updated by l.append) instead of a general heap, the window with clipped SetCell/Println, range loops over snapshots of the collection, the call of Layout with fresh locals) is the semantics of the Go subset the theorems of Props/C19Wid.lean speak about; validated against the real code by the correspondence run (every sl/pg/sb op is run through it); New and line.append are pinned syntactically only",
         "the *_body_eq_model theorems of Props/C19Wid.lean go through wid_bodies_as_expected (regenerated body = the copy in Lemmas/WidSkelExpected.lean) and Lemmas/WidTrees.parse_*: a change of list.go / pager.go / scrollbar.go makes wid_bodies_as_expected fail rather than re-proving the equality for the new body",
         "Props/C19.lean imports Spec/Surface.lean and Model/Window.lean (C14's spec of the painter's algorithm) for dyn_selected_on_top",
         "vxfw.NewSurface / AddChild / WriteCell (C14) are not re-modelled: the surface-size statement is syntactic (facts_surface_is_max) plus the harness reading s.Size",
@@ -98,7 +98,7 @@ CFG = {
                   "(all integers, fuel >= h+2: the loop terminates) - proved for all inputs. The textual pins of the extractor (embedded expected bodies) "
                   "are gone; the extractor degrades (UNTRANSLATED placeholder) instead of failing. Validated by correspondence only: that "
                   "Model/WidExec.lean's semantics is Go's for this subset (every sl/pg/sb op is run through it beside the model: 0 disagreements). "
-                  "Modelled, not verified: pointer aliasing of pager lines (value + shared flag), the Fill cell, styles beyond the attribute.",
+                  "Modelled, not verified: the Fill cell, styles beyond the attribute.",
     "assumptions": [
         "Dynamic list: the Builder has fewer than 2^63 items and is prefix-closed (nil from the first missing index on); an endless Builder is covered by F119i only: Draw does not return when all its widgets have height 0 and the gap is 0 (endless_builder_never_returns) and returns within a bounded frame when every widget has height + gap >= 1 (endless_builder_with_progress_returns, initial scroll state)",
         "integer arithmetic of widgets/list, widgets/pager and widgets/scrollbar does not overflow Go's int (64 bit): index+height, ViewHeight*h, Top*h stay below 2^63 (the models use unbounded integers)",
